@@ -1,4 +1,6 @@
 import NgoVerif.Proofs.C07
+import NgoVerif.Model.MinMax
+import NgoVerif.Model.SumRewrite
 /-!
 # C07 — every invented name is fresh (the `UniqueNames` / `UniqueVariables` state machines)
 
@@ -203,5 +205,45 @@ theorem C07_fresh_var (stm : Stm) (vs : List String) :
 /-- non-vacuity: a vocabulary that already uses ngo's shapes -/
 example : ((UniqueNames.init [] [⟨"__aux_1", 1⟩, ⟨"__aux_2", 1⟩, ⟨"p", 1⟩]).run [.aux 1, .pred "p" 1, .aux 1]).map (·.1)
     = some [⟨"__aux_3", 1⟩, ⟨"p1", 1⟩, ⟨"__aux_5", 1⟩] := by decide
+
+/-! ## the variables of the chain templates (they were hard-wired names; repaired in /repo, see DESIGN §7.1) -/
+
+/-- **The variables of the chain templates are fresh** (they were the hard-wired `__PREV` / `__NEXT`): the two neighbour
+variables `minmax_chains` puts into chain rules and into replaced objectives / sum elements are different from each other
+and are not among the variables they are requested against. -/
+theorem C07_chain_neighbours_fresh (vars : List String) :
+    ∃ p n, MinMax.neighbours vars = (.var p, .var n) ∧ p ∉ vars ∧ n ∉ vars ∧ p ≠ n := by
+  unfold MinMax.neighbours
+  have h1 := makeUnique_some ⟨vars⟩ "__PREV"
+  cases hs : (⟨vars⟩ : UniqueVars).makeUnique "__PREV" with
+  | none => rw [hs] at h1; simp at h1
+  | some r =>
+    obtain ⟨p, u⟩ := r
+    obtain ⟨hp, hu⟩ := makeUnique_fresh_named (by decide) hs
+    have h2 := makeUnique_some u "__NEXT"
+    cases hs2 : u.makeUnique "__NEXT" with
+    | none => rw [hs2] at h2; simp at h2
+    | some r2 =>
+      obtain ⟨n, u2⟩ := r2
+      obtain ⟨hn, _⟩ := makeUnique_fresh_named (by decide) hs2
+      rw [hu] at hn
+      simp only [List.mem_append, List.mem_singleton, not_or] at hn
+      refine ⟨p, n, ?_, hp, hn.1, fun h => hn.2 h.symm⟩
+      simp only [hs2]
+
+/-- the predecessor variable `sum_chains` puts into replaced `#sum` elements and objectives is not a variable of the
+statement -/
+theorem C07_sum_prev_fresh (stm : Stm) : ∃ p, SumRewrite.prevFor stm = .var p ∧ p ∉ stm.vars := by
+  unfold SumRewrite.prevFor
+  have h1 := makeUnique_some (UniqueVars.init stm) "__PREV"
+  cases hs : (UniqueVars.init stm).makeUnique "__PREV" with
+  | none => rw [hs] at h1; simp at h1
+  | some r =>
+    obtain ⟨p, u⟩ := r
+    obtain ⟨hp, _⟩ := makeUnique_fresh_named (by decide) hs
+    exact ⟨p, by simp only, hp⟩
+
+/-- non-vacuity: a rule that uses both template names -/
+example : MinMax.neighbours ["__PREV", "M", "__NEXT", "__PREV0"] = (.var "__PREV1", .var "__NEXT0") := by rfl
 
 end NgoVerif
